@@ -189,6 +189,75 @@ impl NamedTempFile {
         NamedTempFile::new_in(std::env::temp_dir())
     }
 
+    /// Created by [`Builder`]: `open` creates the file at the chosen path.
+    fn make_named<F>(dir: &Path, b: &Builder<'_, '_>, mut open: F) -> io::Result<NamedTempFile>
+    where
+        F: FnMut(&Path) -> io::Result<File>,
+    {
+        let dir = dir.to_path_buf();
+        if let Fault::Errno(e) = sim::decide(&Op::Create { dir: dir.clone() }) {
+            sim::observe(Event::CreateFailed { dir });
+            return Err(io::Error::from_raw_os_error(e));
+        }
+        let tries = if b.random_len == 0 { 1 } else { 1000 };
+        for _ in 0..tries {
+            let mut name = std::ffi::OsString::from(b.prefix);
+            if b.random_len > 0 {
+                // the simulator's counter, padded or cut to the requested length
+                let n = sim::next_name();
+                let digits: String = n.chars().filter(|c| c.is_ascii_alphanumeric()).collect();
+                let mut r: String = digits.chars().rev().take(b.random_len).collect::<String>().chars().rev().collect();
+                while r.len() < b.random_len {
+                    r.insert(0, '0');
+                }
+                name.push(r);
+            }
+            name.push(b.suffix);
+            let path = dir.join(name);
+            match open(&path) {
+                Ok(file) => {
+                    sim::observe(Event::Created { path: path.clone() });
+                    return Ok(NamedTempFile { file: Some(file), path, offset: 0, persisted: b.keep });
+                }
+                Err(e) if e.kind() == io::ErrorKind::AlreadyExists && b.random_len > 0 => continue,
+                Err(e) => {
+                    sim::observe(Event::CreateFailed { dir });
+                    return Err(e);
+                }
+            }
+        }
+        Err(io::Error::new(io::ErrorKind::AlreadyExists, "too many temporary files exist"))
+    }
+
+    /// Close the handle, keep the name: the file is removed when the `TempPath` is dropped.
+    pub fn into_temp_path(mut self) -> TempPath {
+        self.file.take();
+        let path = std::mem::take(&mut self.path);
+        let keep = self.persisted;
+        self.persisted = true; // nothing left for our own Drop to do
+        TempPath { path, keep }
+    }
+
+    pub fn into_parts(mut self) -> (File, TempPath) {
+        let file = self.file.take().unwrap();
+        let path = std::mem::take(&mut self.path);
+        let keep = self.persisted;
+        self.persisted = true;
+        (file, TempPath { path, keep })
+    }
+
+    pub fn into_file(self) -> File {
+        self.into_parts().0
+    }
+
+    pub fn reopen(&self) -> io::Result<File> {
+        OpenOptions::new().read(true).write(true).open(&self.path)
+    }
+
+    pub fn close(self) -> io::Result<()> {
+        self.into_temp_path().close()
+    }
+
     pub fn path(&self) -> &Path {
         &self.path
     }
@@ -320,6 +389,212 @@ impl Drop for NamedTempFile {
             });
         }
     }
+}
+
+impl std::io::Read for NamedTempFile {
+    fn read(&mut self, buf: &mut [u8]) -> io::Result<usize> {
+        self.file.as_mut().unwrap().read(buf)
+    }
+}
+impl std::io::Seek for NamedTempFile {
+    fn seek(&mut self, pos: io::SeekFrom) -> io::Result<u64> {
+        let p = self.file.as_mut().unwrap().seek(pos)?;
+        self.offset = p;
+        Ok(p)
+    }
+}
+
+/// The name of a temporary file whose handle was closed or split off.
+pub struct TempPath {
+    path: PathBuf,
+    keep: bool,
+}
+impl TempPath {
+    pub fn close(mut self) -> io::Result<()> {
+        let r = fs::remove_file(&self.path);
+        sim::observe(Event::Dropped { path: self.path.clone(), removed: r.is_ok() });
+        self.keep = true;
+        r
+    }
+    pub fn keep(mut self) -> Result<PathBuf, PathPersistError> {
+        self.keep = true;
+        Ok(std::mem::take(&mut self.path))
+    }
+    pub fn persist<P: AsRef<Path>>(mut self, new_path: P) -> Result<(), PathPersistError> {
+        let to = new_path.as_ref().to_path_buf();
+        let from = self.path.clone();
+        if let Fault::Errno(e) = sim::decide(&Op::Persist { from: from.clone(), to: to.clone() }) {
+            sim::observe(Event::Persisted { from, to, ok: false });
+            return Err(PathPersistError { error: io::Error::from_raw_os_error(e), path: self });
+        }
+        sim::observe(Event::PersistBegin { from: from.clone(), to: to.clone() });
+        match fs::rename(&from, &to) {
+            Ok(()) => {
+                self.keep = true;
+                sim::observe(Event::Persisted { from, to, ok: true });
+                Ok(())
+            }
+            Err(error) => {
+                sim::observe(Event::Persisted { from, to, ok: false });
+                Err(PathPersistError { error, path: self })
+            }
+        }
+    }
+    pub fn persist_noclobber<P: AsRef<Path>>(mut self, new_path: P) -> Result<(), PathPersistError> {
+        let to = new_path.as_ref().to_path_buf();
+        let from = self.path.clone();
+        if let Fault::Errno(e) = sim::decide(&Op::Persist { from: from.clone(), to: to.clone() }) {
+            sim::observe(Event::Persisted { from, to, ok: false });
+            return Err(PathPersistError { error: io::Error::from_raw_os_error(e), path: self });
+        }
+        sim::observe(Event::PersistBegin { from: from.clone(), to: to.clone() });
+        match fs::hard_link(&from, &to) {
+            Ok(()) => {
+                let _ = fs::remove_file(&from);
+                self.keep = true;
+                sim::observe(Event::Persisted { from, to, ok: true });
+                Ok(())
+            }
+            Err(error) => {
+                sim::observe(Event::Persisted { from, to, ok: false });
+                Err(PathPersistError { error, path: self })
+            }
+        }
+    }
+}
+impl std::ops::Deref for TempPath {
+    type Target = Path;
+    fn deref(&self) -> &Path {
+        &self.path
+    }
+}
+impl AsRef<Path> for TempPath {
+    fn as_ref(&self) -> &Path {
+        &self.path
+    }
+}
+impl std::fmt::Debug for TempPath {
+    fn fmt(&self, f: &mut std::fmt::Formatter<'_>) -> std::fmt::Result {
+        write!(f, "TempPath({:?})", self.path)
+    }
+}
+impl Drop for TempPath {
+    fn drop(&mut self) {
+        if !self.keep {
+            let removed = fs::remove_file(&self.path).is_ok();
+            sim::observe(Event::Dropped { path: self.path.clone(), removed });
+        }
+    }
+}
+pub struct PathPersistError {
+    pub error: io::Error,
+    pub path: TempPath,
+}
+impl std::fmt::Debug for PathPersistError {
+    fn fmt(&self, f: &mut std::fmt::Formatter<'_>) -> std::fmt::Result {
+        write!(f, "PathPersistError({:?})", self.error)
+    }
+}
+impl std::fmt::Display for PathPersistError {
+    fn fmt(&self, f: &mut std::fmt::Formatter<'_>) -> std::fmt::Result {
+        write!(f, "failed to persist temporary file path: {}", self.error)
+    }
+}
+impl std::error::Error for PathPersistError {}
+impl From<PathPersistError> for io::Error {
+    fn from(e: PathPersistError) -> io::Error {
+        e.error
+    }
+}
+
+/// `tempfile::Builder`: names from a prefix, a (simulator-counted) middle part and a suffix.
+pub struct Builder<'a, 'b> {
+    random_len: usize,
+    prefix: &'a std::ffi::OsStr,
+    suffix: &'b std::ffi::OsStr,
+    append: bool,
+    keep: bool,
+}
+impl Default for Builder<'_, '_> {
+    fn default() -> Self {
+        Builder { random_len: 6, prefix: std::ffi::OsStr::new(".tmp"), suffix: std::ffi::OsStr::new(""), append: false, keep: false }
+    }
+}
+impl<'a, 'b> Builder<'a, 'b> {
+    pub fn new() -> Self {
+        Self::default()
+    }
+    pub fn prefix<S: AsRef<std::ffi::OsStr> + ?Sized>(&mut self, prefix: &'a S) -> &mut Self {
+        self.prefix = prefix.as_ref();
+        self
+    }
+    pub fn suffix<S: AsRef<std::ffi::OsStr> + ?Sized>(&mut self, suffix: &'b S) -> &mut Self {
+        self.suffix = suffix.as_ref();
+        self
+    }
+    pub fn rand_bytes(&mut self, rand: usize) -> &mut Self {
+        self.random_len = rand;
+        self
+    }
+    pub fn append(&mut self, append: bool) -> &mut Self {
+        self.append = append;
+        self
+    }
+    pub fn keep(&mut self, keep: bool) -> &mut Self {
+        self.keep = keep;
+        self
+    }
+    pub fn disable_cleanup(&mut self, keep: bool) -> &mut Self {
+        self.keep = keep;
+        self
+    }
+    pub fn tempfile(&self) -> io::Result<NamedTempFile> {
+        self.tempfile_in(std::env::temp_dir())
+    }
+    pub fn tempfile_in<P: AsRef<Path>>(&self, dir: P) -> io::Result<NamedTempFile> {
+        let append = self.append;
+        NamedTempFile::make_named(dir.as_ref(), self, |p| OpenOptions::new().read(true).write(true).append(append).create_new(true).open(p))
+    }
+    pub fn make<F>(&self, f: F) -> io::Result<NamedTempFile>
+    where
+        F: FnMut(&Path) -> io::Result<File>,
+    {
+        self.make_in(std::env::temp_dir(), f)
+    }
+    pub fn make_in<F, P>(&self, dir: P, f: F) -> io::Result<NamedTempFile>
+    where
+        F: FnMut(&Path) -> io::Result<File>,
+        P: AsRef<Path>,
+    {
+        NamedTempFile::make_named(dir.as_ref(), self, f)
+    }
+    pub fn tempdir(&self) -> io::Result<TempDir> {
+        tempdir()
+    }
+    pub fn tempdir_in<P: AsRef<Path>>(&self, dir: P) -> io::Result<TempDir> {
+        tempdir_in(dir)
+    }
+}
+
+/// An unnamed temporary file (created and unlinked at once).
+pub fn tempfile() -> io::Result<File> {
+    tempfile_in(std::env::temp_dir())
+}
+pub fn tempfile_in<P: AsRef<Path>>(dir: P) -> io::Result<File> {
+    let t = NamedTempFile::new_in(dir)?;
+    let f = t.reopen()?;
+    drop(t);
+    Ok(f)
+}
+pub fn tempdir_in<P: AsRef<Path>>(dir: P) -> io::Result<TempDir> {
+    let base = dir.as_ref();
+    for i in 0..100000u32 {
+        let p = base.join(format!(".simtmpdir-{}-{}", std::process::id(), i));
+        if fs::create_dir(&p).is_ok() {
+            return Ok(TempDir { path: p });
+        }
+    }
+    Err(io::Error::new(io::ErrorKind::AlreadyExists, "no free temporary directory name"))
 }
 
 /// Minimal `tempdir` support (used by nothing under test; keeps dependants compiling).
